@@ -116,11 +116,15 @@ func declName(d ast.Decl) string {
 
 // c07Exec runs goose on one pattern and reads the result (no verdicts yet).
 func c07Exec(bin, modDir, outDir string, env []string, flags []string, pattern string) *c07Outcome {
-	res := runGoose(bin, modDir, outDir, 3*time.Minute, env, flags, pattern)
+	return c07ExecN(bin, modDir, outDir, env, flags, pattern)
+}
+
+func c07ExecN(bin, modDir, outDir string, env []string, flags []string, patterns ...string) *c07Outcome {
+	res := runGoose(bin, modDir, outDir, 3*time.Minute, env, flags, patterns...)
 	if res.Code == 1 && strings.Contains(res.Stderr, "patterns matched no packages") {
 		// the go command rewrites go.mod on the first loads of a fresh module; a concurrent load can see nothing: once more
 		time.Sleep(300 * time.Millisecond)
-		res = runGoose(bin, modDir, outDir, 3*time.Minute, env, flags, pattern)
+		res = runGoose(bin, modDir, outDir, 3*time.Minute, env, flags, patterns...)
 	}
 	o := &c07Outcome{Exit: res.Code, Stderr: ansiRe.ReplaceAllString(res.Stderr, ""), TimedOut: res.TimedOut}
 	if res.TimedOut {
@@ -302,6 +306,7 @@ func runC07(r *core.Run) (bool, string) {
 	c.runMixtures(rejecting)
 	t4 := time.Now()
 	c.runMutants()
+	c.runMultiPackage()
 	t5 := time.Now()
 	r.Set("phase_seconds", map[string]float64{"witnesses": t1.Sub(t0).Seconds(), "stdlib": t2.Sub(t1).Seconds(), "catalogue": t3.Sub(t2).Seconds(), "mixtures": t4.Sub(t3).Seconds(), "mutants": t5.Sub(t4).Seconds()})
 
